@@ -404,33 +404,97 @@ class _resolve_called_lambdas(ast.NodeTransformer):
     "Resolve any `(lambda x: x + 1)(y)` calls into just `y + 1`."
 
     def __init__(self):
+        # Parameter name -> argument; `None` for a name that a lambda or comprehension in
+        # between binds again (it hides the parameter).
         self._arg_map_list = []
+
+    @staticmethod
+    def _bound_inside(node: ast.AST) -> set:
+        """Names bound by lambdas and comprehensions inside `node` (not by lambdas that are
+        called on the spot: those are resolved, their parameters do not survive)"""
+        names = set()
+        called = {
+            id(n.func)
+            for n in ast.walk(node)
+            if isinstance(n, ast.Call)
+            and isinstance(n.func, ast.Lambda)
+            and not n.keywords
+            and len(n.func.args.args) == len(n.args)
+        }
+        for n in ast.walk(node):
+            if isinstance(n, ast.Lambda) and id(n) not in called:
+                a = n.args
+                names.update(x.arg for x in a.posonlyargs + a.args + a.kwonlyargs)
+                names.update(x.arg for x in (a.vararg, a.kwarg) if x is not None)
+            elif isinstance(n, ast.comprehension):
+                names.update(t.id for t in ast.walk(n.target) if isinstance(t, ast.Name))
+        return names
 
     def visit_Call(self, node: ast.Call) -> Any:
         # Check if the function being called is a lambda
-        if isinstance(node.func, ast.Lambda):
+        if isinstance(node.func, ast.Lambda) and not node.keywords:
             lambda_node = node.func
+            params = [a.arg for a in lambda_node.args.args]
 
             # Ensure the lambda has arguments and a body
-            if len(lambda_node.args.args) == len(node.args):
-                arg_map = {
-                    lambda_node.args.args[i].arg: self.visit(node.args[i])
-                    for i in range(len(lambda_node.args.args))
-                }
-                self._arg_map_list.append(arg_map)
+            if len(params) == len(node.args):
+                node.args = [self.visit(a) for a in node.args]
+                # Substitution is only safe if nothing inside the body binds a name that one
+                # of the arguments uses. Otherwise leave the call as it is.
+                in_args = {n.id for a in node.args for n in ast.walk(a) if isinstance(n, ast.Name)}
+                if not (self._bound_inside(lambda_node.body) & in_args):
+                    self._arg_map_list.append(dict(zip(params, node.args)))
+                    result = self.visit(lambda_node.body)
+                    self._arg_map_list.pop()
+                    return result
+                node.func = self.visit(node.func)
+                return node
+        return self.generic_visit(node)
 
-                result = self.generic_visit(lambda_node.body)
-                self._arg_map_list.pop()
-                return result
-        else:
-            return self.generic_visit(node)
-        return node
+    def _visit_hiding(self, names, visit_rest) -> Any:
+        self._arg_map_list.append({n: None for n in names})
+        try:
+            return visit_rest()
+        finally:
+            self._arg_map_list.pop()
+
+    def visit_Lambda(self, node: ast.Lambda) -> Any:
+        a = node.args
+        names = [x.arg for x in a.posonlyargs + a.args + a.kwonlyargs]
+        names += [x.arg for x in (a.vararg, a.kwarg) if x is not None]
+        return self._visit_hiding(names, lambda: self.generic_visit(node))
+
+    def _visit_comprehension(self, node: Any) -> Any:
+        # The first iterable is evaluated outside the comprehension's scope
+        node.generators[0].iter = self.visit(node.generators[0].iter)
+        names = [
+            t.id for g in node.generators for t in ast.walk(g.target) if isinstance(t, ast.Name)
+        ]
+
+        def rest():
+            for i, g in enumerate(node.generators):
+                if i > 0:
+                    g.iter = self.visit(g.iter)
+                g.ifs = [self.visit(c) for c in g.ifs]
+            if isinstance(node, ast.DictComp):
+                node.key = self.visit(node.key)
+                node.value = self.visit(node.value)
+            else:
+                node.elt = self.visit(node.elt)
+            return node
+
+        return self._visit_hiding(names, rest)
+
+    visit_ListComp = _visit_comprehension
+    visit_GeneratorExp = _visit_comprehension
+    visit_SetComp = _visit_comprehension
+    visit_DictComp = _visit_comprehension
 
     def visit_Name(self, node: ast.Name) -> Any:
         "Look through the arg map to see if it is a argument"
         for arg_map in reversed(self._arg_map_list):
             if node.id in arg_map:
-                return arg_map[node.id]
+                return node if arg_map[node.id] is None else arg_map[node.id]
         return node
 
 
